@@ -241,6 +241,13 @@ func runFiletree(seed int64, histories, steps int, out *Emitter) {
 				if r.Intn(15) == 0 {
 					v = []string{"not json", "null", "{}"}[r.Intn(3)]
 				}
+				if qr.Intn(8) == 0 {
+					// a child string that is not a single hash: two hashes joined by '/', a crafted string
+					child = []string{child + "/" + hexHash(ftSegs[qr.Intn(len(ftSegs))]), crafted(), child + "/", "/" + child}[qr.Intn(4)]
+					if child == "" {
+						child = "/"
+					}
+				}
 				contents := fmt.Sprintf("c%d", r.Intn(100))
 				msg = &fttypes.MsgPostFile{Creator: creator, Account: acct, HashParent: parent, HashChild: child, Contents: contents, Viewers: v, Editors: e, TrackingNumber: tr}
 				op = map[string]interface{}{"postFile": map[string]interface{}{"creator": creator, "account": acct, "hashParent": parent, "hashChild": child, "contents": contents,
